@@ -167,6 +167,18 @@ CHECKS = {
    design_ref="DESIGN.md section 4 C14",
    note="bounded: <= 4/5 fields over 3 allocations exhaustively, random to 9 fields; chains to length 3/4; " + TRUST,
    technique="TLA+ model (AnchorStore.tla) checked by TLC + TLC trace validation of recorded pointer-equality classes"),
+ "C16": dict(
+   category="model_checking",
+   text="Locations.tla defines what a location means on a text of [width, class] code points (LineAt / ColAt / ByteAt with LF, CR LF "
+        "and lone CR breaks, Consistent, SpanConsistent) and, over the raw event stream, which use site and definition site every "
+        "delivered node has (LVerdict: aliases as values and keys, merge entries with alias / inline / list sources, outermost use "
+        "site wins) and which sites an error raised at a node must carry (ErrSites). TLC checks the coordinate laws on every short "
+        "text and emits each as a test case; the harness reads generated documents with every node span-wrapped and provokes a type "
+        "error at every non-key node; the TLA+ trace validator decides every record.",
+   design_ref="DESIGN.md section 4 C16",
+   note="bounded: prefixes of <= 4/5 characters exhaustively, random documents of <= ~40 events; positions of node starts are taken "
+        "from saphyr-parser markers; one known finding (quoted scalar span runs to the end of the line); " + TRUST,
+   technique="TLA+ model (Locations.tla) checked by TLC + TLC-generated texts replayed into the real crate + TLC trace validation of recorded spans and error locations"),
  "C15": dict(
    category="model_checking",
    text="AnchorStore.tla's call-history part models the thread-local state (context stack, store, in-progress set) under nested "
